@@ -44,6 +44,20 @@ CHECKS = {
         design="DESIGN.md §1 C17",
         engine="symx+smtgen",
     ),
+    "C19": dict(
+        category="other",
+        technique="symbolic execution of the real VMTunnel constructor/connects_nodes over uninterpreted atoms, z3 validity queries against the counterpart table",
+        text=(
+            "The real VMTunnel.__init__ (with _get_peer_variant, real VMNode/VMNetconfig/Params) is executed for every combination of "
+            "local x remote x peer x auth types (plus one unsupported word each) with addresses, networks, netmasks, PSK identities and nic "
+            "names as uninterpreted atoms; the nodes' real interface dicts fork on nic-name equality so aliasing of nic roles is covered. "
+            "Every generated left/right parameter is compared with the documented counterpart table by a validity query over the atoms "
+            "(definedness included); unsupported types must raise ValueError. connects_nodes is run in both argument orders over three "
+            "nodes with the netconfig membership predicates as solver variables. Exhaustive within these bounds (56k paths, 0.9M queries)."
+        ),
+        note="vm platform/interfaces are stubs carrying atoms; for connects_nodes the tunnel netconfigs are stubs with symbolic predicates, a misconfiguration IndexError is not compared. Trusted: symx, z3, the counterpart table written from the constructor's docstring.",
+        design="DESIGN.md §1 C19",
+    ),
 }
 
 NOT_APPLICABLE = {
